@@ -106,15 +106,16 @@ func inputRng(d caseData, i int) *rand.Rand {
 
 func post(a *core.Agg) string {
 	need := map[string]int64{
-		"flags_inputs_with_collisions":     200,
-		"flags_paths_compared":             5000,
-		"grammar_exprs_with_escape":        500,
-		"grammar_exprs_with_index":         500,
-		"grammar_exprs_with_typed_literal": 500,
-		"charts_null_deletions_checked":    200,
-		"charts_scopes_compared":           2000,
-		"charts_aliasing_probes":           500,
-		"flags_multidoc_files":             100,
+		"flags_inputs_with_collisions":          200,
+		"flags_paths_compared":                  5000,
+		"grammar_exprs_with_escape":             500,
+		"grammar_exprs_with_index":              500,
+		"grammar_exprs_with_typed_literal":      500,
+		"charts_null_deletions_checked":         200,
+		"charts_scopes_compared":                2000,
+		"charts_aliasing_probes":                500,
+		"charts_default_lists_of_tables_probed": 500,
+		"flags_multidoc_files":                  100,
 	}
 	for k, min := range need {
 		if a.Stats[k] < min {
